@@ -8,9 +8,11 @@ import (
 
 var (
 	errPathNotFound = errors.New("path does not exist")
-	setJSONOptions  = &sjson.Options{
-		Optimistic:     true,
-		ReplaceInPlace: true,
+	// ReplaceInPlace must stay off: sjson silently skips an in place replacement
+	// when the new value is a string that needs escaping (quotes, backslashes,
+	// non ASCII) and is not longer than the value it replaces.
+	setJSONOptions = &sjson.Options{
+		Optimistic: true,
 	}
 )
 
